@@ -460,8 +460,10 @@ fn small_msg() -> impl Strategy<Value = MsgSpec> {
 fn any_msg() -> impl Strategy<Value = MsgSpec> {
 	prop_oneof![
 		12 => small_msg(),
-		2 => prop::collection::vec(addrspec(), 0..=256).prop_map(MsgSpec::PeerAddrs),
-		2 => (any::<u64>(), 0u8..=20).prop_map(|(a, b)| MsgSpec::GetHeaders(a, b)),
+		// any count up to the limit, and the limit itself (MAX_PEER_ADDRS = 256: what a node that knows
+		// many peers answers with) and its neighbour
+		2 => prop_oneof![3 => 0usize..=256, 1 => Just(255usize), 2 => Just(256usize)].prop_flat_map(|n| prop::collection::vec(addrspec(), n)).prop_map(MsgSpec::PeerAddrs),
+		2 => (any::<u64>(), prop_oneof![3 => 0u8..=20, 1 => Just(20u8)]).prop_map(|(a, b)| MsgSpec::GetHeaders(a, b)),
 		3 => any::<u16>().prop_map(MsgSpec::Header),
 		6 => (any::<u16>(), headers_n()).prop_map(|(a, b)| MsgSpec::Headers(a, b)),
 		3 => any::<u16>().prop_map(MsgSpec::Block),
